@@ -166,8 +166,10 @@ class Report:
         for u in self.unknowns[:10]:
             print(f"INCONCLUSIVE: solver returned unknown for {u}", file=sys.stderr)
             bad = True
-        for h in self.harness_errors[:10]:
-            print(f"HARNESS-ERROR: {str(h)[:1500]}", file=sys.stderr)
+        for h in self.harness_errors[:3]:
+            print(f"HARNESS-ERROR: {str(h)[-700:]}", file=sys.stderr)
+        if len(self.harness_errors) > 3:
+            print(f"HARNESS-ERROR: ... and {len(self.harness_errors) - 3} more", file=sys.stderr)
             bad = True
         if self.twin_expected != self.twin_sat:
             print(f"HARNESS-ERROR: vacuity twins: expected {self.twin_expected} sat, got {self.twin_sat}", file=sys.stderr)
